@@ -24,13 +24,14 @@ import (
 type StateSet uint16
 
 type stateEngine struct {
-	p        *Prog
-	names    []string         // index -> const name
-	values   map[int64]int    // const value -> index
-	getState *ssa.Function    // (*Association).getState
-	setState *ssa.Function    // (*Association).setState
-	all      StateSet
-	predMemo map[string]uint8 // bit0: may return false, bit1: may return true
+	p          *Prog
+	names      []string      // index -> const name
+	values     map[int64]int // const value -> index
+	stateField *types.Var
+	getState   *ssa.Function // (*Association).getState
+	setState   *ssa.Function // (*Association).setState
+	all        StateSet
+	predMemo   map[string]uint8 // bit0: may return false, bit1: may return true
 }
 
 var stateConstNames = []string{"closed", "cookieWait", "cookieEchoed", "established", "shutdownAckSent", "shutdownPending", "shutdownReceived", "shutdownSent"}
@@ -58,7 +59,8 @@ func (p *Prog) States() (*stateEngine, error) {
 	}
 	e.getState = p.Fn("Association.getState")
 	e.setState = p.Fn("Association.setState")
-	if e.getState == nil || e.setState == nil {
+	e.stateField = p.Field("Association", "state")
+	if e.getState == nil || e.setState == nil || e.stateField == nil {
 		return nil, fmt.Errorf("getState/setState not found")
 	}
 	p.stateEng = e
@@ -154,8 +156,14 @@ type StateRun struct {
 	e     *stateEngine
 	Reach map[ssa.Instruction]StateSet // instruction -> union of cur at that point
 	Funcs map[*ssa.Function]bool
-	memo  map[string]*stMemo
-	depth int
+	// Edges: for every If block reached, which successor edges are feasible
+	// under the state binding (union over contexts).
+	Edges map[*ssa.BasicBlock][2]bool
+	// ArgSets: for setState(v) calls with a non-constant state-valued argument,
+	// the union of the sets v may hold.
+	ArgSets map[ssa.Instruction]StateSet
+	memo    map[string]*stMemo
+	depth   int
 }
 
 type stMemo struct {
@@ -166,7 +174,7 @@ type stMemo struct {
 // Run analyses root with the given entry state set. bind optionally binds
 // uint32 parameters of root (by index) to a state set aliasing the current state.
 func (e *stateEngine) Run(root *ssa.Function, entry StateSet, bindParams ...int) *StateRun {
-	r := &StateRun{e: e, Reach: map[ssa.Instruction]StateSet{}, Funcs: map[*ssa.Function]bool{}, memo: map[string]*stMemo{}}
+	r := &StateRun{e: e, Reach: map[ssa.Instruction]StateSet{}, Funcs: map[*ssa.Function]bool{}, memo: map[string]*stMemo{}, Edges: map[*ssa.BasicBlock][2]bool{}, ArgSets: map[ssa.Instruction]StateSet{}}
 	env := stEnv{cur: entry, vals: map[ssa.Value]StateSet{}, alias: map[ssa.Value]bool{}}
 	for _, i := range bindParams {
 		if i < len(root.Params) {
@@ -256,6 +264,16 @@ func (r *StateRun) analyze(fn *ssa.Function, entryEnv stEnv) StateSet {
 				}
 			case *ssa.Call:
 				r.call(&x.Call, x, &env)
+			case *ssa.Store:
+				// constructor: &Association{state: closed, …}
+				if f := fieldOfAddr(x.Addr); f != nil && f == e.stateField {
+					if cs, ok := e.constState(x.Val); ok && cs != 0 {
+						env.cur = cs
+						for k := range env.alias {
+							delete(env.alias, k)
+						}
+					}
+				}
 			case *ssa.Defer:
 				// analysed for reachability at registration; effect on cur ignored
 				tmp := env.clone()
@@ -277,6 +295,9 @@ func (r *StateRun) analyze(fn *ssa.Function, entryEnv stEnv) StateSet {
 				if !e.refine(&nenv, ifi.Cond, taken) {
 					continue // infeasible under the state binding
 				}
+				fe := r.Edges[b]
+				fe[si] = true
+				r.Edges[b] = fe
 				propagate(ins, succ.Index, nenv, &work, inWork)
 			}
 		} else {
@@ -333,6 +354,9 @@ func (r *StateRun) call(cc *ssa.CallCommon, site ssa.Instruction, env *stEnv) {
 				ns = cs
 			} else if v, ok := env.vals[cc.Args[1]]; ok {
 				ns = v
+				r.ArgSets[site] |= v
+			} else {
+				r.ArgSets[site] = e.all
 			}
 		}
 		env.cur = ns
@@ -792,6 +816,18 @@ func (p *Prog) EffectsOf(reach map[ssa.Instruction]StateSet) []Effect {
 				continue
 			}
 			if p.inPkg(sc) && sc.Blocks != nil {
+				if p.FuncName(sc) == "Association.setState" && len(cc.Args) >= 2 {
+					lbl := "setState:?"
+					if k, ok := constInt(cc.Args[1]); ok {
+						lbl = fmt.Sprintf("setState:%d", k)
+						for i, n := range stateConstNames {
+							if cst := p.Const(n); cst != nil && cst.Val().String() == fmt.Sprint(k) {
+								lbl = "setState:" + stateConstNames[i]
+							}
+						}
+					}
+					out = append(out, Effect{lbl, in})
+				}
 				continue
 			}
 			path := ""
@@ -842,5 +878,98 @@ func (p *Prog) EffectsOf(reach map[ssa.Instruction]StateSet) []Effect {
 		}
 		return out[i].Instr.Pos() < out[j].Instr.Pos()
 	})
+	return out
+}
+
+// Feasible is a PathOpts.Feasible filter for this run.
+func (r *StateRun) Feasible(from *ssa.BasicBlock, succIdx int) bool {
+	if len(from.Succs) != 2 {
+		return true
+	}
+	fe, ok := r.Edges[from]
+	if !ok {
+		// block never reached under the binding
+		_, reached := r.Reach[from.Instrs[0]]
+		return !reached && false
+	}
+	return fe[succIdx]
+}
+
+// BlockReached reports whether block b is executable under the binding.
+func (r *StateRun) BlockReached(b *ssa.BasicBlock) bool {
+	_, ok := r.Reach[b.Instrs[0]]
+	return ok
+}
+
+// PhiConstBool evaluates a bool φ considering only feasible incoming edges.
+func (r *StateRun) BoolValue(v ssa.Value) (val bool, known bool) {
+	switch x := v.(type) {
+	case *ssa.Const:
+		if x.Value != nil && x.Value.Kind() == constant.Bool {
+			return constant.BoolVal(x.Value), true
+		}
+	case *ssa.Phi:
+		first := true
+		var acc bool
+		for i, ed := range x.Edges {
+			pred := x.Block().Preds[i]
+			if !r.BlockReached(pred) {
+				continue
+			}
+			// the edge pred->block must be feasible
+			feas := true
+			for si, s := range pred.Succs {
+				if s == x.Block() && !r.Feasible(pred, si) {
+					feas = false
+				}
+			}
+			if !feas {
+				continue
+			}
+			bv, ok := r.BoolValue(ed)
+			if !ok {
+				return false, false
+			}
+			if first {
+				acc, first = bv, false
+			} else if acc != bv {
+				return false, false
+			}
+		}
+		if first {
+			return false, false
+		}
+		return acc, true
+	}
+	return false, false
+}
+
+// Transition is one association-state change observed by the specialiser.
+type Transition struct {
+	From StateSet // current-state set just before the setState call
+	To   StateSet
+	Site ssa.Instruction
+}
+
+// Transitions lists the setState calls reached in a run with the state sets.
+func (r *StateRun) Transitions() []Transition {
+	var out []Transition
+	for in, cur := range r.Reach {
+		ci, ok := in.(ssa.CallInstruction)
+		if !ok || ci.Common().StaticCallee() != r.e.setState {
+			continue
+		}
+		if _, isDefer := in.(*ssa.Defer); isDefer {
+			continue
+		}
+		to := r.e.all
+		if cs, ok := r.e.constState(ci.Common().Args[1]); ok {
+			to = cs
+		} else if v, ok := r.ArgSets[in]; ok {
+			to = v
+		}
+		out = append(out, Transition{cur, to, in})
+	}
+	sort.Slice(out, func(i, j int) bool { return out[i].Site.Pos() < out[j].Site.Pos() })
 	return out
 }
